@@ -32,10 +32,11 @@ TClimb == /\ Ev.ph = "climb" /\ ClimbStep
           /\ ~Ev.dup \/ Ev.da = "level"
 TCruise == /\ Ev.ph = "cruise" /\ CruiseStep
            /\ Ev.da = "level"
-           /\ (k = 0) = Ev.handover          \* first cruise point repeats the last climb point
+           /\ (k = 0) => Ev.handover         \* first cruise point repeats the last climb point (later repeats: a zero-length step)
 TDescent == /\ Ev.ph = "descent" /\ DescentStep
             /\ Ev.da \in {"down", "level"}
-            /\ (k = 0) = Ev.handover         \* first descent point repeats the last cruise point
+            /\ (k = 0) => Ev.handover        \* first descent point repeats the last cruise point
+            /\ (Ev.dup /\ k # 0) => Ev.da = "level"   \* any other repeated point is a zero-length step (descent to the cruise level itself)
 TPoint == /\ l <= Len(Tr) /\ Ev.op = "pt" /\ Sound
           /\ (TClimb \/ TCruise \/ TDescent)
           /\ l' = l + 1 /\ UNCHANGED tid
